@@ -73,6 +73,7 @@ Example C18_second_call_same_nonvacuous :
   let r := drun nat (fun _ a => a) (fun _ => 0) (fun _ ins => map S ins) ex_env (w_calls w_ad) ex_h0 3 in
   fst (fst r) = [[43; 1]] /\ snd (fst r) (e_state ex_env) = ex_h0 (e_state ex_env) /\ snd r = 5.
 Proof. vm_compute. repeat split. Qed.
+Print Assumptions C18_second_call_same_nonvacuous.
 
 (* the deterministic run is one of the executions the frame property speaks about *)
 Theorem C18_deterministic_run_is_an_execution :
@@ -205,6 +206,7 @@ Example C18_fresh_idioms_copy_ex :
   is_fresh_idiom (OAstype DF64) = true /\
   apply_op (OAstype DF64) (mkd CNd DF64 N1 LC) = Some (mkd CNd DF64 N1 LC, false).
 Proof. split; reflexivity. Qed.
+Print Assumptions C18_fresh_idioms_copy_ex.
 
 (* atleast_nd / squeeze / slice / .T / identity of an ndarray are views *)
 Theorem C18_view_idioms_alias : forall o d d' v,
@@ -215,6 +217,7 @@ Example C18_view_idioms_alias_ex :
   is_view_idiom OTranspose = true /\
   apply_op OTranspose (mkd CNd DI64 N2 LC) = Some (mkd CNd DI64 N2 LF, true).
 Proof. split; reflexivity. Qed.
+Print Assumptions C18_view_idioms_alias_ex.
 
 (* ascontiguousarray is a view exactly when dtype and layout already match *)
 Theorem C18_ascontiguousarray_view_iff : forall d d',
@@ -231,6 +234,7 @@ Example C18_ascontiguousarray_view_ex :
   apply_op (OAsContigDt DF64) (mkd CNd DF64 N2 LC) = Some (mkd CNd DF64 N2 LC, true) /\
   apply_op (OAsContigDt DF64) (mkd CNd DF64 N2 LS) = Some (mkd CNd DF64 N2 LC, false).
 Proof. split; reflexivity. Qed.
+Print Assumptions C18_ascontiguousarray_view_ex.
 
 (* a pipeline of ANY length that contains one copying idiom hands on a fresh array *)
 Theorem C18_copy_anywhere_in_pipeline_is_fresh : forall ops1 o ops2 d p d' pr,
@@ -242,6 +246,7 @@ Example C18_copy_anywhere_ex :
   run_ops ([OAtleast1d] ++ OAstype DF64 :: [OGuard1d; OMask]) (mkd CSeries DI64 N1 LC) (PArg 0)
   = Some (mkd CNd DF64 N1 LC, PFresh).
 Proof. reflexivity. Qed.
+Print Assumptions C18_copy_anywhere_ex.
 
 (* a value is the operand's memory or fresh, never somebody else's *)
 Theorem C18_provenance_is_operand_or_fresh : forall ops d p d' pr,
